@@ -300,6 +300,41 @@ def fin_box(tier):
                 yield [["init", cfg]] + [["next"]] * j + [["fin", k], ["next"], ["next"], ["next"], ["obs"], ["fin", k], ["next"]]
 
 
+def walk_box(tier):
+    """finalize(max_n), finalize(max_n+1), finalize(max_n-1) probed after EVERY action of complete small
+    streams of every class (offline: from construction on; online: after an ordinary finalisation):
+    the known-max_n half of the statement at every stream position, incl. all adjoint passes."""
+    N = 5 if tier == "quick" else 8
+    cfgs = []
+    for n in range(1, N + 1):
+        cfgs += [{"cls": "Multistage", "n": n, "ram": 1, "disk": 1, "traj": "maximum", "passes": 1},
+                 {"cls": "Mixed", "n": n, "s": 2, "storage": "DISK", "passes": 1},
+                 {"cls": "Revolve", "n": n, "s": 2, "c8": [8, 8, 16, 16], "passes": 1},
+                 {"cls": "DiskRevolve", "n": n, "s": 1, "c8": [8, 8, 4, 4], "passes": 1},
+                 {"cls": "PeriodicDiskRevolve", "n": n, "s": 1, "c8": [8, 8, 16, 16], "passes": 1},
+                 {"cls": "HRevolve", "n": n, "s": 1, "d": 1, "c8": [8, 8, 4, 4], "passes": 1}]
+    for cfg in cfgs:
+        m = cfg["n"]
+        ops = [["init", cfg]]
+        for _ in range(12 * m + 12):
+            ops += [["next"], ["fin", m], ["fin", m + 1], ["fin", max(m - 1, 0)]]
+        yield ops
+    online = [{"cls": "SingleMemory", "n": 0, "passes": 1}, {"cls": "SingleDisk", "move": False, "n": 0, "passes": 1},
+              {"cls": "SingleDisk", "move": True, "n": 0, "passes": 1}]
+    for p in (1, 2, 3, 4):
+        for b in (0, 1):
+            online.append({"cls": "TwoLevel", "period": p, "b": b, "storage": "DISK" if b else "RAM", "traj": "maximum", "n": 0, "passes": 1})
+    for cfg in online:
+        step = cfg.get("period", 1)
+        for j in (1, 2, 3):
+            told = j * step if cfg["cls"] != "SingleMemory" else 3
+            for m in sorted({told, max(told - 1, 1)}):
+                ops = [["init", cfg]] + [["next"]] * j + [["fin", m]]
+                for _ in range(3 * (10 * m + 10)):        # about three adjoint passes
+                    ops += [["next"], ["fin", m], ["fin", m + 1], ["fin", max(m - 1, 0)]]
+                yield ops
+
+
 def _fin_box_chunk(histories):
     out = []
     for ops in histories:
@@ -331,6 +366,32 @@ def _shard(job):
             raise
         fail = _LAST_FAIL[0]
     return {"stats": list(_STATS), "fail": fail}
+
+
+def minimize_ops(ops, pred, budget=600):
+    """Delta-debug a failing history (operations are dropped while the same predicate still fails)."""
+    used = [0]
+
+    def fails(c):
+        used[0] += 1
+        try:
+            r = replay_ops(c)
+        except Exception:
+            return False
+        return r is not None and r[0] == pred
+    cur = [list(o) for o in ops]
+    changed = True
+    while changed and used[0] < budget:
+        changed = False
+        for size in (16, 8, 4, 2, 1):
+            i = len(cur) - size
+            while i >= 1 and used[0] < budget:
+                cand = cur[:i] + cur[i + size:]
+                if fails(cand):
+                    cur = cand
+                    changed = True
+                i -= size
+    return cur
 
 
 def check_witness(data, show=False):
@@ -373,6 +434,13 @@ def run(prop, args):
         if f is not None:
             rep.add_violation((f["variant"], f["pred"]), {"ops": f["ops"]}, f["detail"], kind="history")
     box = list(fin_box(tier))
+    walks = list(walk_box(tier))
+    for part in R.pmap(_fin_box_chunk, R.chunks(walks, 32), chunksize=1):
+        rep.evaluations += part["n"]
+        for f in part["fails"]:
+            rep.add_violation((f["variant"], f["pred"]), {"ops": f["ops"]}, f["detail"], kind="history")
+    for ops in walks:
+        rep.nontrivial.add("walk:" + json.dumps(ops[:6], sort_keys=True) + str(len(ops)))
     for part in R.pmap(_fin_box_chunk, R.chunks(box, 64), chunksize=1):
         rep.evaluations += part["n"]
         for f in part["fails"]:
@@ -380,7 +448,9 @@ def run(prop, args):
     for ops in box:
         if ops[0][1]["cls"] == "TwoLevel" and len(ops) > 9:
             rep.nontrivial.add(json.dumps(ops, sort_keys=True))
-    rep.exhaustive = [{"box": "online classes (TwoLevel period<=%d), j<=%d next() calls, then finalize(k) for every k in -1..told+1, then 3 next(), observers, finalize(k) again, next()" % (
+    rep.exhaustive = [{"box": "finalize(max_n), finalize(max_n+1), finalize(max_n-1) after every action of complete small streams (6 offline classes n<=%d; online classes after an ordinary finalisation, ~3 passes)" % (5 if tier == "quick" else 8),
+                       "cases": len(walks), "exhaustive": True},
+                      {"box": "online classes (TwoLevel period<=%d), j<=%d next() calls, then finalize(k) for every k in -1..told+1, then 3 next(), observers, finalize(k) again, next()" % (
         (5, 4) if tier == "quick" else (8, 6)), "cases": len(box), "exhaustive": True}]
     R.run_regress(rep, check_witness)
     rep.extra["histories"] = rep.evaluations
@@ -388,4 +458,11 @@ def run(prop, args):
     rep.assumptions = ["'the forward has been told to advance at least to step n' = n1 of the last Forward emitted in the initial sweep >= n",
                        "'the forward stands at max_n' = reference executor forward position (restart checkpoints restore it, adjoint-data checkpoints leave it undefined)",
                        "Hypothesis shrinks the failing history; histories bounded by stateful_step_count"]
-    return rep.finish()
+
+    def shrink(b, w):
+        ops = minimize_ops(w["ops"], b[1])
+        r = replay_ops(ops)
+        if r is None:
+            return None
+        return {"ops": ops}, r[1]
+    return rep.finish(shrink_fn=shrink)
